@@ -4,7 +4,7 @@
    pseudocode: to_pseudocode / Display (fmt_owned_dmt_to_buf, top_level = true); used_types:
    all_used_types (discover_tys) as the list of set insertions.  Literals and panicking arms
    are the tables the translator reads from fmt.rs (GenFmt.v, GenPanicArms.v). *)
-From PV Require Import Base DataModel Schema SchemaDecl GenFmt GenPanicArms SchemaFmt FmtOps SchemaNest FmtFacts.
+From PV Require Import Base DataModel Schema SchemaDecl GenFmt GenFnTemplates GenPanicArms SchemaFmt FmtOps SchemaNest FmtFacts.
 Open Scope N_scope.
 
 (* rendering terminates with text for every schema (no panicking arm, no index out of range) *)
@@ -44,8 +44,19 @@ Example C19_example :
   used_types s = Ok [s; SPrim PUsize; SPrim PSchema].
 Proof. repeat split; vm_compute; reflexivity. Qed.
 
+(* the three functions of schema/fmt.rs the model follows (is_prim, fmt_owned_dmt_to_buf with its
+   fmt_data closure, discover_tys with its closure) are, token for token up to renaming of locals
+   and parameters, the code the hand model SchemaFmt.v was written from (tools/fn_templates.json);
+   the string literals, which are holes of that template, are the ones of GenFmt.v *)
+Theorem C19_formatter_is_the_source :
+  fmt_fns_matched = [[100; 105; 115; 99; 111; 118; 101; 114; 95; 116; 121; 115];
+                     [102; 109; 116; 95; 111; 119; 110; 101; 100; 95; 100; 109; 116; 95; 116; 111; 95; 98; 117; 102];
+                     [105; 115; 95; 112; 114; 105; 109]].
+Proof. exact (eq_refl fmt_fns_matched). Qed.
+
 Print Assumptions C19_render_total.
 Print Assumptions C19_used_types_total.
 Print Assumptions C19_used_types_exact.
 Print Assumptions C19_struct_mentions.
 Print Assumptions C19_enum_mentions.
+Print Assumptions C19_formatter_is_the_source.
